@@ -81,6 +81,16 @@ def _no_clearing(c, fnp, f, effs):
         if tp is None:
             continue
         n += 1
+        # first-present-wins: whether other's value for field X is taken may depend on self.X (is it still empty?),
+        # never on a different field of self — otherwise other.X is dropped for reasons unrelated to X
+        foreign = []
+        for d, lab in cond_desc(b, g.conds(e["bb"])):
+            for m in re.finditer(r"arg1((?:\.[A-Za-z_][A-Za-z_0-9]*)+)", d):
+                fp = m.group(1).strip(".").split(".")
+                if fp[:len(tp)] != tp and tp[:len(fp)] != fp:
+                    foreign.append((d, lab))
+        c.inst("R2.guard-same-field", ".".join(tp), not foreign,
+               "the assignment to self.%s is guarded by a test on a different field of self: %s" % (".".join(tp), foreign[:2]), f.where(e.get("sp")), fnp)
         v = e["value"]
         dep = any(x[0] == "arg" for x in walk_term(v))
         c.inst("R2.no-clearing", ".".join(tp), dep,
